@@ -1759,7 +1759,8 @@ find_reg(const RegisterTable *t,
     struct maybe_register rv = { .valid = true, .handle = 0 };
 
     for (RegisterHandle i = first; i <= last; i++) {
-        if (reg_range_touches(t->entry + i, addr, 1u) == 0) {
+        /* The first register that is not entirely below addr */
+        if (reg_range_touches(t->entry + i, addr, 1u) >= 0) {
             rv.handle = i;
             return rv;
         }
@@ -1850,9 +1851,10 @@ register_foreach_in(RegisterTable *t,
     struct maybe_register startreg;
 
     if (startarea.valid) {
+        /* Registers are sorted: start looking at the area's first register,
+         * but addr may lie behind the area's last one, so don't stop there. */
         const RegisterHandle first = t->area[startarea.handle].entry.first;
-        const RegisterHandle last = t->area[startarea.handle].entry.last;
-        startreg = find_reg(t, first, last, addr);
+        startreg = find_reg(t, first, t->entries - 1u, addr);
     } else {
         startreg = find_reg(t, 0, t->entries - 1u, addr);
     }
